@@ -96,25 +96,21 @@ def cls_cases(out):
 
 
 def _reset_classes():
-    "put the three classes back into the state of a fresh interpreter"
+    "put the three classes back into the state of a fresh interpreter (the attribute values captured at first import)"
     from droop.values.fixed import Fixed
     from droop.values.guarded import Guarded
     from droop.values.rational import Rational
-    for k in ('name', 'info', 'epsilon', 'precision', 'display', '_Fixed__scale', '_Fixed__dfmt', '_Fixed__scaled', '_Fixed__scaledr'):
-        setattr(Fixed, k, None)
-    for k in ('_Fixed__scaledd',):
-        if k in Fixed.__dict__:
-            delattr(Fixed, k)
-    for k in ('info', 'precision', 'guard', 'display', '_Guarded__scale', '_Guarded__scalep', '_Guarded__scaleg', '_Guarded__scaled',
-              '_Guarded__scaledd', '_Guarded__scaledr', '_Guarded__dfmt'):
-        setattr(Guarded, k, None)
-    Guarded.exact = True
-    Guarded.quasi_exact = True
-    for k in ('_Guarded__scaledg', '_Guarded__geps', 'maxDiff', 'minDiff', 'epsilon'):
-        if k in Guarded.__dict__:
-            delattr(Guarded, k)
-    for k in ('dp', '_dps', '_dpr', '_dfmt'):
-        setattr(Rational, k, None)
+    for cls, pristine in drive.PRISTINE_CLASS_STATE.items():
+        for k in list(cls.__dict__):
+            if k not in pristine:
+                delattr(cls, k)
+        for k, v in pristine.items():
+            if k.startswith('__') and k.endswith('__'):
+                continue
+            if callable(v) or isinstance(v, (classmethod, staticmethod, property)) or hasattr(v, '__get__'):
+                continue
+            if cls.__dict__.get(k) is not v:
+                setattr(cls, k, v)
     return Fixed, Guarded, Rational
 
 
